@@ -454,6 +454,17 @@ def make_candidates(self, fr, M, leaves, states, step_consts, houdini):
                 sm = (xa + xb) - (ea + eb)
                 cands.append(('le', sm))
                 cands.append(('le', -sm))
+    # a (ghost) pointer leaf against an integer leaf, up to an offset that is itself a reference value:
+    #   P - I + r >= k   (e.g. "every candidate position before i - index1 has been rejected")
+    ptrs = [l for l in leaves if l.kind != 'int']
+    ints_ = [l for l in leaves if l.kind == 'int']
+    if houdini and ptrs and ints_ and len(ptrs) * len(ints_) <= 6:
+        for pl in ptrs:
+            for il in ints_:
+                rs = [r for r in ref_terms(self, fr, M, il, leaves) if len(r.t) == 1 and r.k == 0][:8]
+                for r in rs:
+                    consider(V(pl.x) - V(il.x) + r)
+                    consider(V(pl.x) - V(il.x) - r)
     # disequalities between integer leaves (e.g. two indices kept distinct by construction)
     ints = [l for l in leaves if l.kind == 'int']
     if houdini and len(ints) <= 8:
@@ -618,6 +629,11 @@ def exec_loop(self, fr, h, entry_states):
             self.silent -= 1
             self.pinned.pop()
         self.stats['houdini_rounds'] += 1
+        if self.models.e3:
+            from . import e3 as _e3
+            for B in res['back']:
+                if 'pairspec' in B.ghost:
+                    _e3.normalise(self, B)
         if not probed and self.models.e3 and not any(o != h and o in body for o in fr.loops):
             # (innermost loops only: an interval built by a comparison loop is anchored at that loop's entry)
             probed = True
